@@ -58,9 +58,16 @@ def render_affinity(rng, diag, K, L, comments=True, shuffle=True):
         out.append("# Max likelihood= -86883 N_real=1")
     for r in rows:
         out.append(r)
-        if rng.random() < 0.1:
+        t = rng.random()
+        if t < 0.1:
             out.append("")
-    return "\n".join(out) + ("\n" if rng.random() < 0.85 else "")
+        elif comments and t < 0.2:
+            # comments and blank-only lines are skipped wherever they stand: between the layers, after the last one
+            out.append(rng.choice(["# layer %s done" % r.split()[0], "#", "   ", "\t", "# w_1 w_2"]))
+    text = "\n".join(out) + ("\n" if rng.random() < 0.85 else "")
+    if comments and rng.random() < 0.15:
+        text = text.replace("\n", "\r\n")
+    return text
 
 
 def read_tokens(path):
